@@ -34,6 +34,39 @@ META = {
  'C18': ('static analysis: lock-region (lockset / check-then-act) analysis over MIR + ordering + provenance',
          'generation passed at every give-back; fullness and staleness tests atomic with the push; item tag stored with the resource; lock order; notify after push; refresh order in both provers',
          'liveness of waiters beyond notify-follows-push'),
+ 'C06': ('static analysis: ADT/collection-type facts + ordering field coverage + who-may-construct + provenance',
+         'registration collections are ordered sets iterated directly for leaves / slot / lookup; Ord reads exactly the committed fields; leaf encoding covers the leaf; AVK and closed registration built on one path; every node goes through SignerBuilder::new; total stake = checked sum',
+         'injectivity of the commitment (hash); codec round trips'),
+ 'C08': ('static analysis: who-may-call + argument-role provenance + effect-closure purity',
+         'is_lottery_won has exactly the signer and verifier callers with identical argument roles; the draw hashes message, index and sigma; the decision closure is effect-free; the signer iterates 0..m',
+         'the numerical core: exactness of the Taylor comparison, error band, monotonicity, zero-stake / phi_f=1 outcomes'),
+ 'C11': ('static analysis: who-may-construct + must-pass-through + provenance + format-template injectivity + field coverage',
+         'Verified* values only from verify(); per-set-proof verification, common root, at least one; v2 root/items/offset provenance; leaf identifier covers all fields with injective text templates; stake leaf template; message recomputation from verified values; nested map proof rules',
+         'hash-level injectivity; the aggregator prover'),
+ 'C12': ('static analysis: collection-type facts + comparison guards + provenance + effect-closure purity',
+         'digests keyed by an ordered map feed the tree in key order; Ord(number, path); sorted listing; number <= beacon filter and beacon-exists guard; digest per entry from its cache entry or its bytes; cache failures cannot change the result; no clock/RNG/hash-order dependence',
+         'byte sensitivity (hash); real directory layouts; cache staleness for changed files'),
+ 'C13': ('static analysis: effect ordering inside transactions + per-batch loop rules + embedded SQL comparison operators',
+         'roll-back = begin < 3 deletes bound to one block number < commit; every polled batch stored or rolled back with errors propagated; resume cursor written only after the loop; chunk-atomic store; SQL threshold directions',
+         'convergence over histories; restart behaviour'),
+ 'C14': ('static analysis: must-pass-through per return kind + effect ordering + provenance + who-may-call + state-relation guards + embedded SQL operator',
+         'create_certificate: flags, multi-signature, self-verification < store < mark; certificate field provenance; who stores certificates; Idle->Ready guards; epoch-initialisation order; gap test before walk; strict pruning threshold of open messages',
+         'the invariant over all interleavings; SQL uniqueness; master-certificate query'),
+ 'C15': ('static analysis: effect ordering + provenance + error-mapping + lock pairing',
+         'verify < insert < mark order; nothing persisted on the no-certificate return; artifact record fields from the inputs; artifact only with the sealed certificate; ReInit/KeepState mapping; entity lock released on every exit of the spawned task',
+         'what a restart finds after each cut; progress'),
+ 'C16': ('static analysis: effect ordering + provenance + influence-on-control + who-may-call',
+         'verify < store on an open non-expired message; stored = verified signature; key looked up by slot in the epoch registration; certificate signer filter; ingestion paths; DMQ sender pairing; party-label binding (known finding)',
+         'storage-key semantics in SQL'),
+ 'C17': ('static analysis: effect-closure purity + who-may-construct + arithmetic-shape rules',
+         'beacon function effect-free; block-number entity variants derived from a tip only there; shared formula with saturating subtraction and max(step,1) divisor; operand roles; all kinds handled',
+         'the arithmetic claims (<= tip-k, monotone, multiples, range boundary)'),
+ 'C19': ('static analysis: effect ordering + who-may-construct + must-pass-through + provenance',
+         'ancillary: temp-dir unpack < verify < move, temp dir removed on every exit; ValidatedAncillaryManifest only from verify (data hashes, signature present, configured key); only listed files moved; immutable archives unpacked into the target (known finding)',
+         'archive-parser behaviour; fault injection while moving files'),
+ 'C20': ('static analysis: provenance + effect ordering + who-may-call/construct + constant relations',
+         'offered beacons pass the already-signed filter; sign < publish < mark with errors propagated; signing only from ReadyToSign, entered after registration and can_sign; epoch change leaves it; offset algebra; offsets at the key-rotation sites',
+         'exactly-once under faults; acceptance by the aggregator'),
 }
 
 NOT_YET = {
